@@ -17,9 +17,13 @@ from concurrent.futures import ThreadPoolExecutor
 
 VERIF = os.path.dirname(os.path.dirname(os.path.dirname(os.path.abspath(__file__))))
 COQ = os.path.join(VERIF, "coq")
-BUILD = os.path.join(VERIF, "build")
-EVID = os.path.join(VERIF, "evidence")
-REPLAYS = os.path.join(VERIF, "replays")
+# VERIF_SCRATCH=<dir> redirects everything a run writes (generated cases, evidence, replays) so that the same
+# property can be run concurrently against another tree (seeded-change experiments) without touching the
+# committed evidence.  Registered checks never set it.
+_SCR = os.environ.get("VERIF_SCRATCH")
+BUILD = os.path.join(_SCR, "build") if _SCR else os.path.join(VERIF, "build")
+EVID = os.path.join(_SCR, "evidence") if _SCR else os.path.join(VERIF, "evidence")
+REPLAYS = os.path.join(_SCR, "replays") if _SCR else os.path.join(VERIF, "replays")
 CORPUS = os.path.join(VERIF, "corpus")
 REPO = os.environ.get("VERIF_REPO", "/repo")
 NPROC = int(os.environ.get("VERIF_JOBS", str(os.cpu_count() or 8)))
